@@ -284,6 +284,9 @@ def run(prog, ctx):
     b4_bounded_compares(prog, ctx)
     b5_length_tests(prog, ctx)
     b6_stack_copies(prog, ctx)
+    # B8: no stack allocation is sized by the length of configuration text (= C04.S11): the stack size is a length limit
+    from rules.C04 import s11_stack_alloc
+    s11_stack_alloc(prog, ctx, [f for f in prog.lib_functions()], "B8")
     ctx.floor("C14 fixed char arrays in lib/", len(la), 3)
     ctx.floor("C14 fixed char arrays in util/", len(ua), 6)
     ctx.floor("C14 write sites", len(ls) + len(us), 12)
